@@ -1,7 +1,8 @@
 // Stand-alone reproducer (package alloc2, C10): preconditioner::cpr on a matrix one of whose block rows stores no
 // entry inside its diagonal block.  first_scalar_pass() calls invert(v, &fpp->val[ik]) only when the diagonal block is
 // met (cur_col == ip), so fpp->val[ik..ik+B) keeps whatever the heap held; Fpp is then used by apply().
-// Build: g++ -std=c++17 -O1 -I/repo cpr_nodiag.cpp -o cpr_nodiag   ; run: ./cpr_nodiag
+// Exit status 0 = identical for two heap fill patterns, 1 = they differ (observed on /repo 3939604: x[2] = -nan vs 0).
+//   g++ -std=c++17 -O1 -I/repo notes/repro_c10_cpr_no_diag_block_uninit.cpp -o repro && ./repro
 #include <new>
 #include <cstdlib>
 #include <cstring>
